@@ -163,6 +163,7 @@ package platform
 //@   requires typeis(f, "string") || typeis(f, "[]byte")
 //@   ensures #a-platform-of-its-own result.1 == nil ==> isnew(result.0)
 //@   ensures #nil-on-error result.1 != nil ==> result.0 == nil
-//@   at return assert #an-unknown-variant-is-a-platform-error pd != nil && !has(pd.Variants, variant) ==> result.1 != nil && isErr(result.1, util.ErrPlatformError) && result.0 == nil
+//@   at call setDriver#1 assert #a-driver-is-built-only-for-a-variant-the-definition-has has(pd.Variants, variant)
+//@   at call Errorf#1 assert #the-refusal-of-an-unknown-variant-is-a-platform-error arg1[0] == util.ErrPlatformError
 //@   at call mergeVariant#1 assert #the-named-variant-is-merged-over-the-loaded-default recv == pd.Default && isnew(recv) && has(pd.Variants, variant) && arg0 == get(pd.Variants, variant)
 //@   at call setDriver#1 assert #the-driver-is-built-from-the-merged-section arg1 == pd.Default && arg0 == host && arg2 === opts
